@@ -524,6 +524,19 @@ where
     }
 }
 
+#[cfg(feature = "verif-hooks")]
+impl<T, A: Allocator> HandleTable<T, A> {
+    /// raw view of every bucket in storage order: `None` = empty, else (handle, value)
+    pub fn verif_raw_slots(&self) -> Vec<Option<(u32, &T)>> {
+        (0..self.capacity)
+            .map(|i| unsafe {
+                let k = *self.handles.as_ptr().add(i);
+                (k.0 != 0).then(|| (k.0, &*self.values.as_ptr().add(i)))
+            })
+            .collect()
+    }
+}
+
 impl<T> Index<Handle> for HandleTable<T> {
     type Output = T;
 
